@@ -5,6 +5,8 @@ stdin: {"cons": [events...], "prov": [cases...], "conc": {...}}   (every key opt
   prov : a real provider + 2 real consumers on the loop-back transport (harness/world.py); requests go through
          the real service clients, responses and OperationInvokedReports are read from the wire log
   conc : several consumer threads calling operations concurrently
+  sched: call_operation and on_operation_invoked_report in real threads under an explicit scheduler that enumerates
+         every interleaving at the granularity of lock acquisitions and accesses to the shared buffer / table
 The SCO worker is a thread; it is stepped deterministically: the handler of every queued operation waits at
 a gate that the harness opens with a 'finish' op, and the harness waits (condition variable, no sleeps) until
 the worker has reached its next stable point."""
@@ -131,6 +133,17 @@ def run_cons(cases):
         d = c09_lib.ManagerDriver(msgs)
         d.run(events)
         out.append(d.observe())
+    return out
+
+
+def run_sched(spec):
+    """every schedule (at the granularity of lock acquire / buffer / table accesses) of a calling thread per call and
+    one notification thread, each run on a fresh real OperationsManager with hooked lock, buffer and table"""
+    msgs = c09_lib.Messages()
+    out = []
+    for sc in spec['scenarios']:
+        runs, complete = c09_lib.explore(msgs, sc, spec.get('limit', 400))
+        out.append({'runs': runs, 'complete': complete})
     return out
 
 
@@ -589,6 +602,8 @@ def run_conc(spec):
 res = {}
 if 'cons' in req_in:
     res['cons'] = run_cons(req_in['cons'])
+if 'sched' in req_in:
+    res['sched'] = run_sched(req_in['sched'])
 if 'prov' in req_in:
     res['prov'] = run_prov(req_in['prov'])
 if 'conc' in req_in:
